@@ -21,6 +21,7 @@ MAXC = 0x2FFFF
 _STR = z3.StringSort()
 QUICK_MS = int(os.environ.get('PYVC_Z3_QUICK_MS', '250'))
 FULL_S = int(os.environ.get('PYVC_SOLVER_S', '20'))
+FEAS_S = int(os.environ.get('PYVC_FEAS_S', '8'))
 CVC5 = '/usr/bin/cvc5'
 
 class Infeasible(Exception): pass
@@ -326,7 +327,60 @@ def _cvc5_api(smt, want_model, budget_s):
         if outs and outs[0] != 'sat': break
     return (outs[0] if outs else ''), '\n'.join(outs)
 
+_RW = {}
+def rewrite_finite(c):
+    """replace  x in R  (x a variable, L(R) finite and small: lemma by enumeration, cached) by a disjunction of equalities,
+    recursively through and/or/not -- equalities are decided far faster than regex memberships by both solvers"""
+    k = c.get_id()
+    if k in _RW: return _RW[k][1]
+    out = c
+    try:
+        if z3.is_app(c):
+            kind = c.decl().kind()
+            if kind == z3.Z3_OP_SEQ_IN_RE:
+                x, R = c.arg(0), c.arg(1)
+                if z3.is_const(x) and x.decl().kind() == z3.Z3_OP_UNINTERPRETED:
+                    ws = finite_words(R, limit=16)
+                    if ws is not None:
+                        out = z3.Or(*[x == z3.StringVal(w) for w in ws]) if len(ws) > 1 else (x == z3.StringVal(ws[0]) if ws else z3.BoolVal(False))
+            elif kind in (z3.Z3_OP_AND, z3.Z3_OP_OR, z3.Z3_OP_NOT, z3.Z3_OP_IMPLIES):
+                ch = [rewrite_finite(a) for a in c.children()]
+                if any(a.get_id() != b.get_id() for a, b in zip(ch, c.children())):
+                    out = {z3.Z3_OP_AND: lambda: z3.And(*ch), z3.Z3_OP_OR: lambda: z3.Or(*ch), z3.Z3_OP_NOT: lambda: z3.Not(ch[0]), z3.Z3_OP_IMPLIES: lambda: z3.Implies(ch[0], ch[1])}[kind]()
+    except Undecided:
+        out = c
+    _RW[k] = (c, out)      # keep c alive so that its id is not reused
+    return out
+
+def _is_var(e): return z3.is_const(e) and e.decl().kind() == z3.Z3_OP_UNINTERPRETED
+def combine_memberships(cs):
+    """all top-level regex facts about one variable -- x in R, not (x in R), (x == '' or x in R) -- become ONE membership in the
+    intersection (with complements): a single-variable membership is decided by the solvers' regex engines at once, whereas several
+    separate (negated) memberships of the same variable are what makes them time out"""
+    by = {}; rest = []
+    for c in cs:
+        x = None; R = None
+        try:
+            if z3.is_app(c) and c.decl().kind() == z3.Z3_OP_SEQ_IN_RE and _is_var(c.arg(0)): x, R = c.arg(0), c.arg(1)
+            elif z3.is_not(c) and c.arg(0).decl().kind() == z3.Z3_OP_SEQ_IN_RE and _is_var(c.arg(0).arg(0)): x, R = c.arg(0).arg(0), z3.Complement(c.arg(0).arg(1))
+            elif z3.is_or(c) and c.num_args() == 2:
+                a, b = c.arg(0), c.arg(1)
+                if b.decl().kind() != z3.Z3_OP_SEQ_IN_RE: a, b = b, a
+                if b.decl().kind() == z3.Z3_OP_SEQ_IN_RE and _is_var(b.arg(0)) and z3.is_eq(a):
+                    l, r = a.arg(0), a.arg(1); v = b.arg(0)
+                    empty = (l.get_id() == v.get_id() and z3.is_string_value(r) and r.as_string() == '') or (r.get_id() == v.get_id() and z3.is_string_value(l) and l.as_string() == '')
+                    if empty: x, R = v, z3.Union(z3.Re(z3.StringVal('')), b.arg(1))
+        except Exception: x = None
+        if x is None: rest.append(c)
+        else: by.setdefault(x.get_id(), (x, []))[1].append(R)
+    for x, rs in by.values():
+        rest.append(z3.InRe(x, z3.Intersect(*rs) if len(rs) > 1 else rs[0]))
+    return rest
+
 def solve(constraints, want_model=False, budget_s=None, label=''):
+    constraints = combine_memberships([rewrite_finite(c) for c in constraints])
+    return _solve(constraints, want_model, budget_s, label)
+def _solve(constraints, want_model=False, budget_s=None, label=''):
     """returns ('sat', Model|None, backend) | ('unsat', None, backend) ; raises Undecided.
     Portfolio: z3 with a short budget; on `unknown` cvc5 (python API, same process); then z3 with the full budget."""
     budget_s = budget_s or FULL_S
@@ -345,6 +399,8 @@ def solve(constraints, want_model=False, budget_s=None, label=''):
     except Exception as e:
         first, out = '', ''
     STATS['cvc5'] += 1; STATS['cvc5_t'] += time.time() - t
+    if os.environ.get('PYVC_SLOW') and time.time() - t > float(os.environ['PYVC_SLOW']):
+        print('SLOW-CVC5', label, first, round(time.time() - t, 2), 'n=', len(constraints), sol.sexpr()[-int(os.environ.get('PYVC_SLOWN', '600')):], flush=True)
     if first == 'unsat': return 'unsat', None, 'cvc5'
     if first == 'sat': return 'sat', (Model(d=_parse_cvc5_model(out)) if want_model else None), 'cvc5'
     sol2 = z3.Solver(); sol2.set('timeout', int(budget_s * 1000))
@@ -353,6 +409,10 @@ def solve(constraints, want_model=False, budget_s=None, label=''):
     if r2 == z3.sat: return 'sat', (Model(zm=sol2.model()) if want_model else None), 'z3'
     if r2 == z3.unsat: return 'unsat', None, 'z3'
     STATS['unknown'] += 1
+    if os.environ.get('PYVC_DUMP_UNKNOWN'):
+        import hashlib
+        txt = sol2.to_smt2(); fn = os.path.join(os.environ['PYVC_DUMP_UNKNOWN'], hashlib.md5(txt.encode()).hexdigest()[:10] + '.' + label + '.smt2')
+        open(fn, 'w').write('(set-logic QF_SLIA)\n' + txt)
     raise Undecided(f'both solvers unknown ({label})')
 
 def _wait(proc, secs):
@@ -361,6 +421,22 @@ def _wait(proc, secs):
 
 # ----------------------------------------------------------------------------- path state
 DERIVE_CHARS = '/_.\n?:,&=%+#;~*<> \t\r'
+def _inre_mentions(c, vid):
+    """does c contain a regex membership whose string argument mentions the variable with id vid"""
+    stack = [c]; seen = set()
+    while stack:
+        x = stack.pop()
+        if x.get_id() in seen: continue
+        seen.add(x.get_id())
+        if z3.is_app(x) and x.decl().kind() == z3.Z3_OP_SEQ_IN_RE:
+            st2 = [x.arg(0)]
+            while st2:
+                y = st2.pop()
+                if y.get_id() == vid: return True
+                st2.extend(y.children())
+            continue
+        stack.extend(x.children())
+    return False
 def _has_vars(e):
     seen = set(); stack = [e]
     while stack:
@@ -373,7 +449,7 @@ def _has_vars(e):
 class PathState:
     def __init__(self, decisions=()):
         self.decisions = list(decisions); self.pos = 0
-        self.pc = []; self.excl = {}; self.subst = {}; self.nvars = 0; self.derived = {}; self.nonempty = set(); self.pattern_of = {}; self.domain = {}; self.subst_log = []
+        self.pc = []; self.excl = {}; self.subst = {}; self.nvars = 0; self.derived = {}; self.nonempty = set(); self.pattern_of = {}; self.domain = {}; self.subst_log = []; self.soft = []
         self.pending = []   # alternative decision prefixes discovered
         self.log = []
         self.inputs = {}    # name -> symbolic value (for concretisation)
@@ -451,15 +527,20 @@ class PathState:
             if ex: cs.append(z3.InRe(z3.String(n), self.excl_re(ex)))
         return cs
     def feasible(self, extra=()):
-        r = solve(self._constraints(extra), label='feasibility')
+        r = solve(self._constraints(extra), label='feasibility', budget_s=FEAS_S)
         return r[0] == 'sat'
-    def model(self, extra=()):
+    def model(self, extra=(), budget_s=None):
         cs = self._constraints(extra, all_domains=True)
-        r = solve(cs, want_model=True, label='model')
+        r = solve(cs, want_model=True, label='model', budget_s=budget_s)
         if r[0] != 'sat': raise Undecided('model query on infeasible state')
         if not model_ok(r[1], cs):
             STATS['bad_model'] = STATS.get('bad_model', 0) + 1
             raise Undecided(f'solver ({r[2]}) returned a model that does not satisfy the constraints')
+        if self.soft and not model_ok(r[1], self.soft):
+            cs2 = cs + list(self.soft)          # exact query
+            r = solve(cs2, want_model=True, label='model-exact', budget_s=budget_s)
+            if r[0] != 'sat': raise Undecided('state is infeasible once the soft constraints are enforced')
+            if not model_ok(r[1], cs2): raise Undecided('invalid model')
         return r[1]
     def resolve_expr(self, e):
         """apply every variable refinement made so far to a z3 expression built earlier on this path"""
@@ -479,9 +560,15 @@ class PathState:
             r = solve(self._constraints([z3.Not(cond.z)], all_domains=True), want_model=True, label='obligation')
         except Undecided as e: return 'undecided', str(e)
         if r[0] == 'unsat': return 'discharged', r[2]
-        if not model_ok(r[1], self._constraints([z3.Not(cond.z)], all_domains=True)):
+        cs = self._constraints([z3.Not(cond.z)], all_domains=True)
+        if not model_ok(r[1], cs):
             STATS['bad_model'] = STATS.get('bad_model', 0) + 1
             return 'undecided', f'solver ({r[2]}) returned a counter-model that does not satisfy the constraints'
+        if self.soft and not model_ok(r[1], self.soft):
+            try: r = solve(cs + list(self.soft), want_model=True, label='obligation-exact')
+            except Undecided as e: return 'undecided', str(e)
+            if r[0] == 'unsat': return 'discharged', r[2]
+            if not model_ok(r[1], cs + list(self.soft)): return 'undecided', 'invalid counter-model'
         return 'refuted', r[1]
     # ---- decisions
     def do_subst(self, v, atoms):
@@ -500,8 +587,14 @@ class PathState:
             else:
                 self.pc.append(z3.Or(*[rep == z3.StringVal(w) for w in ws]) if ws else z3.BoolVal(False))
         out = []; ids = set()
+        self.soft = [z3.substitute(c, (v.z, rep)) for c in self.soft]
         for c in self.pc:
             c2 = z3.substitute(c, (v.z, rep))
+            if len(atoms) > 1 and c2.get_id() != c.get_id() and c.decl().kind() in (z3.Z3_OP_NOT, z3.Z3_OP_OR, z3.Z3_OP_AND) and _inre_mentions(c, v.z.get_id()):
+                # a negated membership of the refined variable becomes a negated membership of a concatenation: the query class both
+                # solvers fail on.  It is kept as a *soft* constraint: left out of feasibility queries (over-approximation, sound for
+                # proving) and enforced on every model that is used as a witness (see model / prove).
+                self.soft.append(c2); continue
             if c2.get_id() != c.get_id() and not _has_vars(c2): c2 = z3.simplify(c2)      # ground after substitution: evaluate
             if z3.is_true(c2) or c2.get_id() in ids: continue
             ids.add(c2.get_id()); out.append(c2)
